@@ -20,6 +20,10 @@ def _tp(text):
     return TPP(assumed_time_zone=(0, 0)).parse(text)
 
 
+def _wk(p):
+    return [p.year, p.week_of_year, p.day_of_week]
+
+
 def _err(fn):
     try:
         return fn()
@@ -64,6 +68,11 @@ def _probes():
                                       list(D.iter_months_days(2004, in_reverse=True)[0])]),
         ("year_add", lambda: str(_tp("2004-366T00Z") + D.Duration(years=1)) if D.get_days_in_year(2004) >= 366 else
          str(_tp("2004-360T00Z") + D.Duration(years=1))),
+        ("week_year_add", lambda: [_wk(_tp("2001-W52-2T00Z") + D.Duration(years=1)), _wk(_tp("2004-W52-7T00Z") + D.Duration(years=-2)),
+                                   _wk(_tp("2000-W51-1T00Z") + D.Duration(years=5))]),
+        ("nominal_lengths", lambda: [list(D.Duration(years=1).get_days_and_seconds()), D.Duration(years=1, months=1).get_seconds(),
+                                     D.Duration(years=1) > D.Duration(days=361), D.Duration(years=1) <= D.Duration(days=360),
+                                     D.Duration(years=1) < D.Duration(days=366)]),
         ("cli_offset", lambda: _cli(["2001-02-28T00Z", "--offset", "P1D", "--calendar", CURRENT["cli"]])),
     ]
     return P
